@@ -168,6 +168,27 @@ func histMain(args []string) {
 			ev["str_same"] = ok && s1 == strs[e]
 			emit(ev)
 		}
+		if h == 0 {
+			// the first history of a run: deep recursions that end in an error, several times over, and then ordinary calls -
+			// whatever an evaluation counts or holds while it runs is given back when it fails
+			deep := `($f := function($n){$n <= 0 ? $error("boom") : $f($n - 1)}; $f(260))`
+			plain := `($g := function($x){$x * 2}; $map([1, 2, 3], $g))`
+			for i, src := range []string{deep, plain} {
+				if ex, err := jsonata.Compile(src); err == nil {
+					exprs[i+1] = ex
+					a := astOf(verifNode(ex))
+					asts[i+1], strs[i+1] = canon(a), ex.String()
+					emit(M{"ev": "Compile", "e": i + 1, "src": cps(src), "ast": a})
+				}
+			}
+			evalOn(2, 1)
+			for k := 0; k < 5; k++ {
+				evalOn(1, 1)
+			}
+			evalOn(2, 1)
+			evalOn(1, 2)
+			evalOn(2, 2)
+		}
 		if r.Intn(3) == 0 {
 			// a scripted opening: the same call site $f() evaluated before and after the name is registered again
 			// with another function, on the expression and at package level (visibility rules of C20, and C05:
